@@ -51,17 +51,6 @@ def polyEqMod (hyps : List (E × E)) (cert : List E) (a b : E) : Bool :=
   hyps.length == cert.length &&
   polyEq (.sub a b) (sumE ((hyps.zip cert).map fun (h, c) => .mul c (.sub h.1 h.2)))
 
-/-- every output `j < n` of `u` is decision-free with the same normal form as `spec j` -/
-def Unit.polyAgrees (u : Unit) (n : Nat) (spec : Nat → E) : Bool :=
-  u.outs.length == n && (List.range n).all fun j =>
-    match u.out j with
-    | .leaf e => polyEq e (spec j)
-    | _ => false
-
-/-- every output `j < n` of `u` is decision-free and literally the expression `spec j` -/
-def Unit.synAgrees (u : Unit) (n : Nat) (spec : Nat → E) : Bool :=
-  u.outs.length == n && (List.range n).all fun j => u.out j == .leaf (spec j)
-
 /-! ### rational functions: numerator / denominator normal form -/
 
 /-- literal denominators are non-zero (the only syntactic requirement of the rational reflection) -/
@@ -76,8 +65,12 @@ def mulE (a b : E) : E := if b == .lit 1 1 then a else if a == .lit 1 1 then b e
 /-- numerator and denominator; sub-terms outside `+ - * / neg` stay atoms of the numerator -/
 def E.frac : E → E × E
   | .lit n d => (.lit n 1, .lit d 1)
-  | .add a b => (.add (mulE a.frac.1 b.frac.2) (mulE b.frac.1 a.frac.2), mulE a.frac.2 b.frac.2)
-  | .sub a b => (.sub (mulE a.frac.1 b.frac.2) (mulE b.frac.1 a.frac.2), mulE a.frac.2 b.frac.2)
+  | .add a b =>
+    if a.frac.2 == b.frac.2 then (.add a.frac.1 b.frac.1, a.frac.2)   -- common denominator: no blow-up
+    else (.add (mulE a.frac.1 b.frac.2) (mulE b.frac.1 a.frac.2), mulE a.frac.2 b.frac.2)
+  | .sub a b =>
+    if a.frac.2 == b.frac.2 then (.sub a.frac.1 b.frac.1, a.frac.2)
+    else (.sub (mulE a.frac.1 b.frac.2) (mulE b.frac.1 a.frac.2), mulE a.frac.2 b.frac.2)
   | .mul a b => (mulE a.frac.1 b.frac.1, mulE a.frac.2 b.frac.2)
   | .div a b => (mulE a.frac.1 b.frac.2, mulE a.frac.2 b.frac.1)
   | .neg a => (.neg a.frac.1, a.frac.2)
@@ -100,14 +93,5 @@ def fracEqMod (hyps : List (E × E)) (cert : List E) (a b : E) : Bool :=
 
 /-- `d` is, as a rational function, one of the allowed divisors -/
 def divisorAllowed (allowed : List E) (d : E) : Bool := allowed.any fun a => fracEq d a
-
-/-- every output `j < n` is decision-free, equals `spec j` as a rational function, and divides
-    only by expressions from `allowed` (so that non-vanishing of `allowed` is the only side condition) -/
-def Unit.fracAgrees (u : Unit) (n : Nat) (spec : Nat → E) (allowed : List E) : Bool :=
-  u.outs.length == n && (List.range n).all fun j =>
-    match u.out j with
-    | .leaf e => fracEq e (spec j) && e.divisors.all (divisorAllowed allowed)
-        && (spec j).divisors.all (divisorAllowed allowed)
-    | _ => false
 
 end Glm
